@@ -84,8 +84,9 @@ class SymEnv:
             raise sym.Infeasible()
 
     # ---- claims
-    def eq(self, name, a, b, note=None):
-        """a == b (exactly, or up to one constant factor within 1e-9: see solve.py)."""
+    def eq(self, name, a, b, note=None, scale=None):
+        """a == b (exactly, or up to one constant factor within 1e-9: see solve.py).
+        `scale` only matters in concrete mode (natural magnitude of the operands when a, b cancel)."""
         if a is None or b is None:
             self.fact(name, a is None and b is None, note=note or '%r vs %r' % (a, b))
             return
@@ -166,7 +167,7 @@ class ConcEnv:
         if not cond:
             raise AssumptionFailed("assumption false on concrete values")
 
-    def _num_ok(self, a, b):
+    def _num_ok(self, a, b, scale=None):
         if a is None or b is None:
             return a is None and b is None
         try:
@@ -178,14 +179,14 @@ class ConcEnv:
             return bool(np.isnan(a) and np.isnan(b))
         if np.isinf(a.real) or np.isinf(b.real):
             return a == b
-        return abs(a - b) <= self.rel * max(abs(a), abs(b)) + self.abs_tol
+        return abs(a - b) <= self.rel * max(abs(a), abs(b), abs(scale) if scale is not None else 0.0) + self.abs_tol
 
-    def eq(self, name, a, b, note=None):
+    def eq(self, name, a, b, note=None, scale=None):
         if a is sym.SymNaN:
             a = float('nan')
         if b is sym.SymNaN:
             b = float('nan')
-        self.results.append((name, self._num_ok(a, b), _show(a), _show(b)))
+        self.results.append((name, self._num_ok(a, b, scale), _show(a), _show(b)))
 
     close = eq
 
